@@ -14,7 +14,8 @@ Definition aval (e : env) (a : atom) : bool :=
   match a with AQ => eQ e | AV => eV e | AAmtPos => eP e | AAmtZero => eZ e | AF5 => eF e end.
 
 Inductive cond :=
-| CTrue | CFalse | CUnknown | CAtom (a : atom) | CNot (c : cond) | CAnd (a b : cond) | COr (a b : cond).
+| CTrue | CFalse | CUnknown | CAtom (a : atom) | CNot (c : cond) | CAnd (a b : cond) | COr (a b : cond)
+| CFlag (name : string).   (* a named flag of the executor (ce.isView): unknown to the context analysis *)
 
 (** three-valued evaluation: None = not determined by the atoms *)
 Fixpoint ceval (e : env) (c : cond) : option bool :=
@@ -22,6 +23,7 @@ Fixpoint ceval (e : env) (c : cond) : option bool :=
   | CTrue => Some true
   | CFalse => Some false
   | CUnknown => None
+  | CFlag _ => None
   | CAtom a => Some (aval e a)
   | CNot c => option_map negb (ceval e c)
   | CAnd a b =>
@@ -46,7 +48,8 @@ Definition forbidden (k : kind) (e : env) : bool :=
 
 Inductive stmt :=
 | Skip | Seq (a b : stmt) | If (c : cond) (a b : stmt) | Loop (s : stmt) | Return | Defer (s : stmt)
-| Mut (m : string) (k : kind) | Call (f : string) | RunLua.
+| Mut (m : string) (k : kind) | Call (f : string) | RunLua
+| IncV | DecV.              (* ctx.nestedView++ / ctx.nestedView-- (analysed by VmGuard/Balance.v) *)
 
 Definition prog := list (string * stmt).
 
@@ -88,6 +91,8 @@ Section Sem.
   | X_Mut : forall e m k, exec e (Mut m k) [(m, k, e)] true
   | X_Call : forall e f body t o, lookup p f = Some body -> exec e body t o -> exec e (Call f) t true
   | X_CallExt : forall e f, lookup p f = None -> exec e (Call f) [] true
+  | X_IncV : forall e, exec e IncV [] true
+  | X_DecV : forall e, exec e DecV [] true
   | X_Lua0 : forall e, exec e RunLua [] true
   | X_LuaN : forall e e' cb t1 o1 t2, In cb cbs -> env_rel e e' ->
       exec e' (Call cb) t1 o1 -> exec e RunLua t2 true -> exec e RunLua (t1 ++ t2) true.
